@@ -88,6 +88,8 @@ def kwargs_of(cfg, i, kind):
         kw = {"stepsize": cfg["steps"][i], "disable_progressbar": True}
         if kind == "HMC":
             kw["amount_of_steps"] = 2 + i % 3
+        if cfg.get("settings_on_object"):
+            kw["autotuning"] = True
     return kw
 
 
@@ -95,6 +97,12 @@ def build(cfg):
     S, D, MM = _hm()
     samplers = [getattr(S, k)(seed=s) for k, s in zip(cfg["kinds"], cfg["seeds"])]
     posts = [D.Normal(np.array(mu).reshape(-1, 1), float(T)) for mu, T in zip(cfg["mus"], cfg["temps"])]
+    if cfg.get("settings_on_object"):
+        # settings that have no keyword in sample() live on the sampler object: the floor of the tuned step size. The chains of the controller are the
+        # user's samplers (copies of them), settings included. Targets narrow enough for the tuned step to reach the floor.
+        for i, smp in enumerate(samplers):
+            smp.minimal_stepsize = 1e-3 * (i + 1)
+        posts = [D.Normal(np.array(mu).reshape(-1, 1), float(T) * 1e-5) for mu, T in zip(cfg["mus"], cfg["temps"])]
     return samplers, posts
 
 
@@ -216,6 +224,10 @@ def run(tier, seed):
             sub = os.path.join(tmp, f"c{ci}")
             os.makedirs(sub)
             cfg["init_in_kwargs"] = cfg["init_mode"] != "none" and (ci in (1, 2) or random.Random(cfg["controller_seed"] ^ 7).random() < 0.25)
+            cfg["settings_on_object"] = cfg["kw_mode"] == "list" and not cfg["shared_mass"] and (ci in (2, 6) or random.Random(cfg["controller_seed"] ^ 11).random() < 0.3)
+            if cfg["settings_on_object"]:
+                cfg["P"] = 20 * cfg["thin"]
+                st.count("settings carried by the sampler objects (minimal_stepsize)")
             status, res = supervised(job, (cfg, sub), timeout=120 if n <= 16 else 300, tmpdir=tmp)
             stim = {k: cfg[k] for k in ("n", "kinds", "init_mode", "kw_mode", "shared_mass", "kw_overrides", "P", "thin", "pre_run", "init_in_kwargs")}
             if cfg["init_in_kwargs"]:
